@@ -398,6 +398,7 @@ func (w *World) run() *Outcome {
 		return o
 	}
 	w.checkObservers()
+	w.checkNoRepeat()
 	w.checkCapacityAtEnd()
 	w.checkCacheFiles("at end")
 	if c.FS != nil && c.FS.Dump != "" {
@@ -444,6 +445,8 @@ func (w *World) script(prefix string, steps []Step) {
 		switch st.Op {
 		case "run":
 			w.stepRun(ctx, path, st)
+		case "runargs":
+			w.stepRunArgs(ctx, path, st)
 		case "scan":
 			w.stepScan(ctx, path, st)
 		case "discard":
@@ -571,6 +574,119 @@ func (w *World) stepRun(ctx context.Context, path string, st *Step) {
 	w.mu.Unlock()
 	w.addStep(sr)
 	w.checkStepExpect(path, st, err)
+}
+
+// stepRunArgs runs one of the argument-shape Funcs and checks that the rows,
+// computed by whoever invoked the Func, render the arguments the driver passed.
+func (w *World) stepRunArgs(ctx context.Context, path string, st *Step) {
+	a := st.ArgSpec
+	var (
+		fn   *bigslice.FuncValue
+		args []interface{}
+		want string
+	)
+	switch st.Variant {
+	case "slices":
+		fn = interp.ArgFuncSlices
+		args = []interface{}{a.NShard, a.S}
+		descr := []string{"<nil>", "<nil>"}
+		for k := 0; k < 2; k++ {
+			if k < len(st.Args) && st.Args[k] != "" {
+				r := w.getResult(st.Args[k])
+				if r == nil || r.res == nil {
+					w.addStep(StepResult{Path: path, Op: "runargs", ID: st.ID, Err: "skipped: argument result unavailable"})
+					return
+				}
+				args = append(args, r.res)
+				cols := make([]string, r.res.NumOut())
+				for c := range cols {
+					cols[c] = r.res.Out(c).String()
+				}
+				descr[k] = fmt.Sprintf("slice(shards=%d cols=%s prefix=%d)", r.res.NumShard(), strings.Join(cols, ","), r.res.Prefix())
+			} else {
+				args = append(args, nil)
+			}
+		}
+		want = fmt.Sprintf("tag=%q a=%s b=%s", a.S, descr[0], descr[1])
+	case "bad":
+		fn = interp.ArgFuncBad
+		args = interp.BadArgs(a.NShard, a.Bad)
+	default:
+		fn = interp.ArgFunc
+		args = a.Args()
+		xs, m, ps := a.Xs, a.M, a.Ps
+		if a.XsNil {
+			xs = nil
+		}
+		if a.MNil {
+			m = nil
+		}
+		if a.PsNil {
+			ps = nil
+		}
+		want = interp.RenderArgs(a.A, a.S, xs, m, a.St, ps, args[7], args[8])
+	}
+	t := spec.Type{Cols: []string{"int", "p:string"}, Prefix: 1}
+	r := &result{id: st.ID, spec: &spec.Spec{}}
+	sr := StepResult{Path: path, Op: "runargs", ID: st.ID}
+	res, err := func() (res *exec.Result, err error) {
+		defer func() {
+			if e := recover(); e != nil {
+				err = fmt.Errorf("panic in Run: %v", e)
+			}
+		}()
+		return w.sess.Run(ctx, fn, args...)
+	}()
+	sr.Err = errString(err)
+	if err == nil {
+		r.res = res
+		var rows []spec.Row
+		rows, err = func() ([]spec.Row, error) {
+			sc := res.Scanner()
+			defer sc.Close()
+			return interp.ScanAll(ctx, t, sc)
+		}()
+		if err != nil {
+			sr.Err = "scan: " + err.Error()
+		} else if st.Variant != "bad" {
+			sr.NRows = len(rows)
+			if len(rows) != a.NShard*3 {
+				w.violate("wrong-rows", "step %s: %d rows, want %d", path, len(rows), a.NShard*3)
+			}
+			for i, row := range rows {
+				if row[0].(int) != i || row[1].(string) != want {
+					w.violate("arguments-altered", "step %s row %d: the invoking process saw %q, the driver passed %q", path, i, row[1], want)
+					break
+				}
+			}
+		}
+		// Model value so that later steps can use the result as an argument.
+		var mrows []spec.Row
+		for i := 0; i < a.NShard*3; i++ {
+			mrows = append(mrows, spec.Row{i, want})
+		}
+		r.val = &spec.Val{T: t, NShard: a.NShard, Rows: mrows, Ordered: true}
+		r.ref = &spec.Ref{}
+	}
+	r.err = err
+	w.mu.Lock()
+	w.results[st.ID] = r
+	w.mu.Unlock()
+	w.addStep(sr)
+	w.checkStepExpect(path, st, err)
+}
+
+// checkNoRepeat checks that nothing was attempted twice (C16: a prompt error, no retries).
+func (w *World) checkNoRepeat() {
+	if !w.c.Oracle.NoRepeat || w.sys == nil {
+		return
+	}
+	for _, e := range w.sys.Events() {
+		if e.Point == "send" && (e.Method == "Worker.Run" || e.Method == "Worker.Compile") && e.Occ > 1 {
+			w.violate("repeated-attempt", "%s %s was sent %d times to %s in a run without injected faults", e.Method, e.Key, e.Occ, e.Callee)
+			return
+		}
+	}
 }
 
 func (w *World) checkStepExpect(path string, st *Step, err error) {
